@@ -14,7 +14,26 @@ META = {
         "no XML parser in this build: XML-only spellings and <replicate> are not covered",
     ],
 }
-META["text"] = "see below"
+META["text"] = (
+    "Proved in Coq over the reals about the model Model/Orient.v of ResolveOrientation (= mjs_resolveOrientation, with mjuu_normvec, mjuu_z2quat, mjuu_frame2quat, mjuu_mulquat as written), "
+    "for all inputs outside the stated thresholds: axisangle resolves to the unit quaternion whose matrix is Rodrigues' formula for the normalised axis and the angle (degrees converted by /180*pi; "
+    "the degree spelling equals the radian spelling of the converted angle; axis below the mjEPS threshold is an error) (C36_orient_axisangle); euler for EVERY sequence over xyzXYZ (first three "
+    "characters), radians or degrees, is the ordered product of the coordinate-axis rotations (upper-case factors reversed on the left, lower-case factors in order on the right), a unit quaternion, "
+    "and an error exactly for shorter / invalid sequences (C36_orient_euler; the per-step mjuu_normvec is proved to be the identity on unit quaternions, so the user-side loop equals the engine loop "
+    "of C24); xyaxes built from the first two matrix columns of a unit quaternion p with any positive scales and any skew of y along x resolves to p or -p (C36_orient_xyaxes, Gram-Schmidt + the four "
+    "arms of frame2quat); zaxis resolves to a unit quaternion with zero z component that maps the z axis onto z/|z| (C36_orient_zaxis, including the exact +-z cases; atan2/half-angle identities "
+    "proved); an element wrapped in ANY number of nested frames compiles to the pose written out directly (C36_frames, induction over the nesting; C36_frameaccum_assoc) for unit quaternions; "
+    "an attribute resolved through ANY chain of nested default classes is the element's own setting, else that of the innermost class that sets it, else the built-in value (C36_defaults, discrete model "
+    "of the copy-then-overwrite construction of classes and elements). PARTIAL: C36_fuse_partial proves only the mass-property algebra of fusing (a set of geoms can be replaced by a lumped body at its "
+    "centre of mass without changing mass, first moment or the tensor about any point); mjCBody::AccumulateInertia and the re-parenting done by fusestatic are not modelled. Excluded by explicit premises: "
+    "the window 0 < | |v| - 1 | <= 1e-14 in which mjuu_normvec leaves a non-unit vector untouched, and z axes within 1e-7 of +-z but not equal to them (treated as +-z by the code: a 1e-7 rad approximation). "
+    "TIE on every run: mjs_resolveOrientation is compared with the model evaluated at binary64 on random and boundary inputs of every spelling (all 216 Euler sequences, degrees and radians, invalid "
+    "sequences, thresholds) and with an independent rotation-matrix oracle; compiled joint attributes are compared with the Coq default-class model. ORACLE through the mjSpec C API (no theorem about "
+    "mj_compile as a whole): random articulated models are written out explicitly and re-spelled five ways -- orientations as axisangle/euler/xyaxes/zaxis with degree and eulerseq options; bodies and "
+    "geoms wrapped in 1-3 nested frames; joint and geom attributes through three nested default classes and childclass; a subtree built in a child spec and attached with mjs_attach; fusestatic on/off -- "
+    "both are compiled, run through mj_forward and 100 steps, and the poses of all kept bodies must agree to 1e-9 (fusestatic: 1e-6, because the fused inertia goes through mjuu_eig3 whose designed accuracy "
+    "is ~1e-6 rad, see C35; measured ~1e-9). NOT covered: XML-only spellings and <replicate> (no XML parser in this build), discardvisual, mj_setConst after runtime edits, default classes inside "
+    "attached child specs, name prefixing of non-body elements.")
 META["note"] = ("Trusted: Coq kernel + standard-library real-number axioms listed in trusted_base; hand-written models; Lib/FloatFn.v (executable side); "
                 "harness (driver c36_equiv.cc, python pose algebra of the rewritings).")
 TOL = "0x1p-30"
@@ -171,7 +190,8 @@ def resolve_cases(ctx):
         s, t, kk = 10 ** rng.uniform(-2, 2), 10 ** rng.uniform(-2, 2), rng.choice([0.0, rng.gauss(0, 1)])
         x = [s * a for a in c0]
         y = [t * b + kk * a for a, b in zip(x, c1)]
-        cs.append((2, 0, "-", x + y, R))
+        # conditioning of the Gram-Schmidt step: |y| / |component of y orthogonal to x|
+        cs.append((2, 0, "-", x + y, ("cond", R, math.sqrt(sum(v * v for v in y)) / t)))
     cs.append((2, 0, "-", [1.0, 0, 0, 2.0, 0, 0], "err"))
     cs.append((2, 0, "-", [0.0, 0, 0, 0, 1.0, 0], "err"))
     cs.append((2, 0, "-", [1.0, 0, 0, 0, 0, 0], "err"))
@@ -236,7 +256,10 @@ def run_resolve(ctx, exe):
             continue
         bad = abs(sum(x * x for x in o) - 1) > 1e-12
         R = q2m(o)
-        if isinstance(exp, tuple):
+        if isinstance(exp, tuple) and exp[0] == "cond":
+            bad = bad or maxdiff(R, exp[1]) > 1e-12 * max(1.0, exp[2])
+            expd = {"rotation matrix": exp[1], "conditioning": exp[2]}
+        elif isinstance(exp, tuple):
             v = unit(exp[1])
             zc = [R[i][2] for i in range(3)]
             tiny = math.hypot(v[0], v[1]) < 1e-7          # below the mjuu_normvec threshold the vector is treated as +-z
